@@ -27,6 +27,13 @@ def stateBefore (p : BState α) (script : List (Cb α)) : Nat → Option (BState
 def NamesSource (r : Reg) (name : String) : Prop :=
   ∃ c, (c, Kind.source) ∈ r.nodes ∧ (name = c ∨ (name ≠ "" ∧ (c, name) ∈ r.rails))
 
+/-- each time is the previous one plus the matching duration: `ts[j] = (t0 if j = 0 else ts[j-1]) + ds[j]`
+    (and there is a duration for every time) -/
+def TimeChain [Add α] (t0 : α) : List α → List α → Prop
+  | [], _ => True
+  | t :: ts, d :: ds => t = t0 + d ∧ TimeChain t ts ds
+  | _ :: _, [] => False
+
 /-- every component in the rails registry is a registered node (a `System` invariant) -/
 def Reg.RailsKnown (r : Reg) : Prop := ∀ p ∈ r.rails, (r.nodes.lookup p.1).isSome = true
 
